@@ -15,7 +15,7 @@ from decimal import Decimal
 from fractions import Fraction
 import z3
 
-from .sym import (SV, INT, DEC, FLT, BOOL, NativeLeak, Unsupported, is_sym, contains_sym, lift, pytype_of,
+from .sym import (SV, INT, DEC, FLT, BOOL, NativeLeak, Unsupported, MergeAbort, is_sym, contains_sym, lift, pytype_of,
                   is_number, as_int_term, as_real_term, as_bool_term, int_floordiv, real_trunc, real_floor,
                   real_ceil, mk_ite, frac_of, realval)
 
@@ -356,6 +356,10 @@ class Interp:
         return self._run(c.node, args, kwargs, c.scopes, c.globs, c.__qualname__, c.cls_name, c.defaults, c.kw_defaults, "")
 
     def _run(self, node, args, kwargs, scopes, globs, qualname, cls_name, defaults, kwdefaults, filename):
+        if self.path.assumes and not self.spec_depth:
+            # guarded (merged) evaluation must be free of side effects: an interpreted callee (e.g. a property getter that fills a
+            # cache) could write to the heap under the guard, and that write would survive on the other side of the merge
+            raise MergeAbort(f"call of {qualname} inside merged evaluation")
         self.call_depth += 1
         if self.call_depth > 80:
             raise Unsupported("call depth > 80 (recursion?)")
